@@ -64,8 +64,8 @@ def fam_bytes(nmax=8):
     S6 = StructDef('By_enum', [Field(1, 'default', S('enum')), Field(2, 'default', S('double')), Field(3, 'default', ('map', S('enum'), S('double')))])
     return [{'sd': s, 'kinds': ['bytes'], 'params': {'bytes': ns}} for s in (S1, S2, S3, S4, S5, S6)]
 
-def pair(w, t, orders=3, reach=None):
-    d = {'w': w, 't': t, 'kinds': ['decmsg'], 'params': {'decmsg': [{'orders': orders}]}}
+def pair(w, t, orders=3, reach=None, hop=False):
+    d = {'w': w, 't': t, 'kinds': ['decmsg'] + (['hop'] if hop else []), 'params': {'decmsg': [{'orders': orders}]}}
     if reach:
         d['reach'] = reach
     return d
@@ -81,7 +81,7 @@ def fam_evolve(orders=3):
     retyped = StructDef('EvRetyped', [Field(1, 'default', S('i64')), Field(2, 'default', S('binary')), Field(3, 'default', ('set', S('i16'))),
                                       Field(4, 'default', ('map', S('i8'), S('i8'))), Field(5, 'default', ('struct', LEAF, True)), Field(6, 'default', S('i64'))], has_unknown=True)
     renum = StructDef('EvRenum', [Field(11, 'default', S('i32')), Field(12, 'default', S('string')), Field(260, 'default', ('list', S('i16')))], has_unknown=True)
-    out = [pair(W1, same, orders), pair(W1, minus, orders), pair(W1, minusH, orders), pair(W1, plus, orders), pair(W1, retyped, orders), pair(W1, renum, orders)]
+    out = [pair(W1, same, orders), pair(W1, minus, orders), pair(W1, minusH, orders, hop=True), pair(W1, plus, orders), pair(W1, retyped, orders, hop=True), pair(W1, renum, orders, hop=True)]
     # unknown fields of every wire type nested inside known containers
     extras = [S('bool'), S('i8'), S('i16'), S('i32'), S('i64'), S('double'), S('string'), ('struct', LEAF, True),
               ('map', S('string'), S('i32')), ('set', S('i64')), ('list', S('string'))]
@@ -90,7 +90,7 @@ def fam_evolve(orders=3):
         ti = StructDef('EvTIn%d' % n, [Field(1, 'default', S('i32')), Field(3, 'default', S('i8'))], has_unknown=(n % 2 == 0))
         wo = StructDef('EvWOut%d' % n, [Field(1, 'default', ('list', ('struct', wi, n % 3 == 0))), Field(2, 'default', ('map', S('i16'), ('struct', wi, True)))])
         to = StructDef('EvTOut%d' % n, [Field(1, 'default', ('list', ('struct', ti, n % 3 == 0))), Field(2, 'default', ('map', S('i16'), ('struct', ti, True)))])
-        out.append(pair(wo, to, 2))
+        out.append(pair(wo, to, 2, hop=(n % 2 == 0)))
     return out
 
 def fam_required():
@@ -110,4 +110,67 @@ def fam_required():
     out.append(pair(wr, tr, 2, reach=['end', 'missing']))
     return out
 
-FAMILIES = {'evolve': fam_evolve, 'evolve_full': lambda: fam_evolve(6), 'required': fam_required, 'bytes8': lambda: fam_bytes(8), 'bytes12': lambda: fam_bytes(12), 'scalar': fam_scalar, 'list': fam_list, 'map': fam_map}
+def fam_default():
+    # C10: declared defaults. Codec harness for the omission rule; decmsg (writer omits fields) for the decode rule.
+    out = []
+    small = {'codec': [{'S': 1, 'L': 1, 'M': 1, 'D': 1}]}
+    groups = {
+        'DfA': [Field(1, 'optional', S('bool'), default='true'), Field(2, 'optional', S('i8'), default='3'), Field(3, 'optional', S('i16'), default='-4'),
+                Field(4, 'optional', S('i32'), default='5')],
+        'DfB': [Field(5, 'optional', S('i64'), default='-6'), Field(6, 'optional', S('double'), default='7.5'), Field(7, 'optional', S('enum'), default='10'),
+                Field(10, 'optional', S('double'))],
+        'DfC': [Field(8, 'optional', S('string'), default='"8"'), Field(9, 'optional', S('binary'), default='[]byte("9")'), Field(11, 'optional', S('binary'))],
+        'DfD': [Field(12, 'optional', S('i32'), ptr=True), Field(13, 'default', S('i32'), default='77'), Field(14, 'optional', ('list', S('i32'))),
+                Field(15, 'required', S('string'), default='"r"')],
+    }
+    for n, fs in groups.items():
+        out.append({'sd': StructDef(n, fs, has_init=True), 'kinds': ['codec']})
+    inner_w = StructDef('DfInW', [Field(1, 'optional', S('i32'), ptr=True), Field(2, 'optional', S('string'), ptr=True), Field(3, 'optional', S('i64'), ptr=True)])
+    ow = StructDef('DfOutW', [Field(1, 'default', ('struct', inner_w, True)), Field(2, 'default', ('list', ('struct', inner_w, True))),
+                              Field(3, 'default', ('list', ('struct', inner_w, False))), Field(7, 'optional', S('i32'), ptr=True)])
+    ot = StructDef('DfOutT', [Field(1, 'default', ('struct', LEAFD, True)), Field(2, 'default', ('list', ('struct', LEAFD, True))),
+                              Field(3, 'default', ('list', ('struct', LEAFD, False))), Field(7, 'optional', S('i32'), default='99')], has_init=True)
+    ow2 = StructDef('DfOutW2', [Field(4, 'default', ('map', S('i8'), ('struct', inner_w, True))),
+                                Field(5, 'default', ('map', S('i8'), ('struct', inner_w, False))), Field(6, 'default', ('struct', inner_w, False))])
+    ot2 = StructDef('DfOutT2', [Field(4, 'default', ('map', S('i8'), ('struct', LEAFD, True))),
+                                Field(5, 'default', ('map', S('i8'), ('struct', LEAFD, False))), Field(6, 'default', ('struct', LEAFD, False))])
+    out.append(pair(ow, ot, 2))
+    out.append(pair(ow2, ot2, 2))
+    out.append({'sd': ot, 'kinds': ['codec'], 'params': small})
+    out.append({'sd': ot2, 'kinds': ['codec'], 'params': small})
+    return out
+
+def fam_nocopy():
+    inner = StructDef('NcIn', [Field(1, 'default', S('string'), nocopy=True), Field(2, 'default', S('string')), Field(3, 'optional', S('binary'), nocopy=True)])
+    a = StructDef('NcA', [Field(1, 'default', S('string'), nocopy=True), Field(2, 'default', S('binary'), nocopy=True), Field(3, 'optional', S('string'), ptr=True, nocopy=True),
+                          Field(4, 'default', S('string')), Field(5, 'default', S('binary')), Field(6, 'optional', S('string'), ptr=True)])
+    b = StructDef('NcB', [Field(7, 'default', ('struct', inner, True)), Field(8, 'default', ('list', ('struct', inner, False))), Field(300, 'default', ('list', S('string')))])
+    sm = {'codec': [{'S': 2, 'L': 1, 'M': 1, 'D': 1}]}
+    return [pair(a, a, 3), pair(b, b, 2), {'sd': a, 'kinds': ['codec'], 'params': sm}, {'sd': b, 'kinds': ['codec'], 'params': sm}]
+
+def fam_unknown():
+    u1 = StructDef('UkA', [Field(1, 'default', S('i32')), Field(2, 'optional', S('string'), ptr=True)], has_unknown=True)
+    u2 = StructDef('UkB', [Field(1, 'default', ('struct', u1, True)), Field(2, 'default', ('list', ('struct', u1, False))), Field(3, 'default', ('map', S('string'), ('struct', u1, True)))], has_unknown=True)
+    return [{'sd': u1, 'kinds': ['codec']}, {'sd': u2, 'kinds': ['codec'], 'params': {'codec': [{'S': 1, 'L': 1, 'M': 1, 'D': 1}]}}]
+
+def fam_ids():
+    out = []
+    for name, ids in (('IdLo', [0, 1, 62, 63, 64, 65]), ('IdMid', [127, 128, 255, 256, 257]), ('IdHi', [32767, 32768, 65534])):
+        fs = []
+        for n, i in enumerate(ids):
+            fs.append(Field(i, ['default', 'required', 'optional'][n % 3], S(['i8', 'i16', 'string', 'i64', 'bool', 'double'][n % 6]), name='F%d' % i, ptr=(n % 3 == 2)))
+        out.append({'sd': StructDef(name, fs), 'kinds': ['codec']})
+    return out
+
+def fam_nest():
+    rec = StructDef('NsRec', [Field(1, 'default', S('i32'))])
+    rec.fields.append(Field(2, 'optional', ('struct', rec, True), name='Next'))
+    rec.decl_fields = rec.fields
+    rec.fields.append(Field(3, 'default', ('list', ('struct', rec, True)), name='Kids'))
+    a = StructDef('NsA', [Field(1, 'default', ('map', S('string'), ('list', ('map', S('i32'), S('string'))))), Field(2, 'default', ('list', ('list', ('set', S('i8')))))])
+    b = StructDef('NsB', [Field(1, 'default', ('struct', LEAF, False)), Field(2, 'default', ('map', ('struct', LEAF, True), ('struct', LEAFD, False))),
+                          Field(3, 'optional', ('list', ('struct', LEAFD, True)))])
+    sm = {'codec': [{'S': 1, 'L': 1, 'M': 1, 'D': 2}]}
+    return [{'sd': rec, 'kinds': ['codec'], 'params': sm}, {'sd': a, 'kinds': ['codec'], 'params': sm}, {'sd': b, 'kinds': ['codec'], 'params': sm}]
+
+FAMILIES = {'default': fam_default, 'nocopy': fam_nocopy, 'unknown': fam_unknown, 'ids': fam_ids, 'nest': fam_nest, 'evolve': fam_evolve, 'evolve_full': lambda: fam_evolve(6), 'required': fam_required, 'bytes8': lambda: fam_bytes(8), 'bytes12': lambda: fam_bytes(12), 'scalar': fam_scalar, 'list': fam_list, 'map': fam_map}
